@@ -328,6 +328,8 @@ class Func:
         e = self.x(i)
         if e is None:
             return ''
+        if e['k'] == 'ref' and isinstance(e.get('cv'), int) and self.decls[e['decl']]['kind'] in ('global', 'staticlocal'):
+            return str(e['cv'])      # named compile-time constant
         p = self.path(i, ctx)
         if p is not None:
             return p
